@@ -1,5 +1,6 @@
 import RainModel.Model.Discipline
 import RainModel.Generated.Access
+import RainModel.Lemmas.LockGraph
 /-!
 C20 — no data races or lock-ups under concurrent API use (weakest level: `other`).
 
@@ -60,6 +61,54 @@ registry lock (in `Session.Close`), and no function reachable from the event loo
 theorem lock_order_acyclic :
     heldWhileWaiting.all (fun h => !(loopLocks.contains h.2.1)) = true := by
   decide +kernel
+
+/-! ### Lock nesting (potential deadlocks among the locks themselves)
+
+`lockEdges` (regenerated from the source on every run) has one entry per acquisition of a lock made while
+another lock is held — lexically, or inside a function called from the critical section; a bbolt transaction
+counts as holding `bbolt.rw` (Update/Batch and every `resumer` call) or `bbolt.ro` (View).  A deadlock among
+locks needs a cycle `l₀ → l₁ → … → l₀` of "holds lᵢ, acquires lᵢ₊₁" in that table.  The kernel evaluates the
+check on the table (`lock_nesting_acyclic`); `lock_nesting_no_cycle` is what the check means, for every table. -/
+
+/-- **lock_nesting_no_cycle** (soundness of the check, all edge lists): if `lockGraphAcyclic es = true` there is
+no lock `l` with a non-empty walk `l → … → l` along "holds → acquires" edges of `es`; in particular no self-edge
+`l → l` (re-acquisition of a non-reentrant mutex, `RLock` inside `RLock`) and no inversion `a → b`, `b → a`. -/
+theorem lock_nesting_no_cycle (es : List LockEdge) (h : lockGraphAcyclic es = true) (l : Nat) :
+    ¬ Path (lockGraph es) l l :=
+  no_cycle_of_graphAcyclic h l
+
+/-- The same with the cycle written out as a list of locks `l₀ → l₁ → … → lₖ → l₀`. -/
+theorem lock_nesting_no_cycle_list (es : List LockEdge) (h : lockGraphAcyclic es = true) (l₀ : Nat) (ls : List Nat) :
+    ¬ Walk (lockGraph es) l₀ ls l₀ :=
+  fun hw => no_cycle_of_graphAcyclic h l₀ (Walk.toPath ls l₀ l₀ hw)
+
+/-- **lock_nesting_acyclic.** Kernel evaluation on the table extracted from the current source. -/
+theorem lock_nesting_acyclic : lockGraphAcyclic lockEdges = true := by
+  decide +kernel
+
+/-- Hence: the extracted lock-nesting graph of the current source has no cycle. -/
+theorem extracted_lock_graph_has_no_cycle (l : Nat) : ¬ Path (lockGraph lockEdges) l l :=
+  lock_nesting_no_cycle lockEdges lock_nesting_acyclic l
+
+/-- **loop_carried_locks_gated.** Where a loop over a collection takes the lock of the next element while it
+still holds the previous one (same lock name, distinct instances: `Session.updateStats` read-locks the bitfield
+of every torrent), the whole sequence runs under an exclusive lock (the bbolt write transaction), so two such
+sequences cannot interleave and wait for each other's elements. -/
+theorem loop_carried_locks_gated : loopCarriedGated loopCarried = true := by
+  decide +kernel
+
+/-- Non-vacuity: an inversion `A → B`, `B → A` is rejected … -/
+example : lockGraphAcyclic [⟨0, 0, 1, 0⟩, ⟨1, 1, 0, 0⟩] = false := by decide
+/-- … also when it is hidden among other edges and closed through a third lock, … -/
+example : lockGraphAcyclic [⟨0, 0, 1, 0⟩, ⟨0, 5, 6, 0⟩, ⟨1, 1, 2, 3⟩, ⟨2, 2, 0, 0⟩, ⟨2, 2, 7, 0⟩] = false := by decide
+/-- … a self-edge (re-acquisition, `RLock` inside `RLock`) is rejected, … -/
+example : lockGraphAcyclic [⟨0, 3, 3, 1⟩] = false := by decide
+/-- … a consistent order is accepted, and the extracted table is not empty. -/
+example : lockGraphAcyclic [⟨0, 0, 1, 0⟩, ⟨1, 1, 2, 0⟩, ⟨2, 0, 2, 0⟩] = true := by decide
+example : lockEdges.length > 0 := by decide +kernel
+/-- The hypothesis of `lock_nesting_no_cycle` is not what makes it true: the rejected inversion has a cycle. -/
+example : Path (lockGraph [⟨0, 0, 1, 0⟩, ⟨1, 1, 0, 0⟩]) 0 0 :=
+  Path.cons (b := 1) (by decide) (Path.single (by decide))
 
 /-- **discipline_sound.** In any execution whose happens-before relation orders all events of the loop
 goroutine and all pairs of critical sections of one mutex, two events whose accesses do not `clash`
